@@ -78,12 +78,12 @@ def build_ext(asan=False, quiet=True):
     raise RuntimeError("link failed: %s" % r.stderr)
   os.replace(os.path.join(tmp, os.path.basename(so)), so)
   subprocess.run(["rm", "-rf", tmp])
-  # prune older builds of the same flavour (keep the 3 newest)
+  # prune older builds of the same flavour (keep the 12 newest)
   fl = [d for d in os.listdir(BUILD)
         if d.startswith("cfg-") and d.endswith("-asan") == asan
         and ".tmp." not in d]
   fl.sort(key=lambda d: os.path.getmtime(os.path.join(BUILD, d)))
-  for d in fl[:-3]:
+  for d in fl[:-12]:
     if os.path.join(BUILD, d) != out:
       subprocess.run(["rm", "-rf", os.path.join(BUILD, d)])
   if not quiet:
